@@ -191,11 +191,7 @@ def atomicity(ctx, fb, it, inst, observed=None):
         exc = [r for frx, crx, r in EXCEPTIONS if re.search(frx, it.path) and cname and re.search(crx, cname)]
         if exc and re.search(r"override_range$", it.path):
             # this exception is only sound on paths that passed the whole validation
-            cm = p.conds()
-            fit = any(a[0] == "b" and a[1][0] == "bin" and a[1][1] == "Gt" and v is False and contains(a[1], ("len", P(3))) for a, v in cm)
-            st = any(a[0] == "b" and a[1][0] == "bin" and a[1][1] == "Gt" and a[1][2] == P(2) and v is False for a, v in cm)
-            idx = any(a[0] == "b" and a[1][0] == "call" and a[1][1].endswith("Iterator>::any") and v is False for a, v in cm)
-            if not (fit and st and idx):
+            if not all(treefx.batch_validated(fb, p, muts[0][0])):
                 exc = []
         if exc and cname and re.search(r"update_nodes$", cname):
             # premise: update_nodes' own Err arises only from the `levels(start) != levels(end)` test (its other failures are its recursion)
